@@ -981,6 +981,8 @@ def check_C17(run):
     rng = random.Random(run.seed)
     fut = [start_model_check(run, 'MC_IO', 'MC_IO_%s%s.cfg' % (s, '_thorough' if run.tier == 'thorough' else ''), workers=8,
                               label='io' + s, timeout=2400) for s in ("r", "w")]
+    # the descriptor classes at system-call grain: bursts, short counts and EINTR are stuttering steps of the contract
+    fut.append(start_model_check(run, 'MC_FdEnv', 'MC_FdEnv.cfg', workers=2, label='fdenv'))
     seqs = gen_sequences(run, 2, 3, 12000 if thorough else 1000, rng)
     cmds = []
     k = 0
